@@ -58,8 +58,12 @@ def messages():
     out_of_range.get_field_by_id("heading").value = 1e9
     unknown = copy.deepcopy(single)
     unknown.PGN = 123456
+    # refused by the encoder's own header checks rather than by a per-PGN encoder
+    prio8, src256, wide = copy.deepcopy(single), copy.deepcopy(single), copy.deepcopy(multi)
+    prio8.priority, src256.source, wide.PGN = 8, 256, 0x40000
     return {"single": single, "single2": single2, "multi": multi, "multi2": multi2,
-            "bad-missing": missing, "bad-range": out_of_range, "bad-pgn": unknown}
+            "bad-missing": missing, "bad-range": out_of_range, "bad-pgn": unknown,
+            "bad-priority": prio8, "bad-source": src256, "bad-pgn-wide": wide}
 
 
 def mirror(kind: str, msgs: list):
@@ -187,7 +191,7 @@ def bind(chk: Check, tier: str, seed: int):
                     recs.append(r)
                     meta.append((kind, "multi+single", f"drain={mask}", f"{how}-fails@{j}", "fault"))
         # messages that cannot be sent
-        for badname in ("bad-missing", "bad-range", "bad-pgn"):
+        for badname in ("bad-missing", "bad-range", "bad-pgn", "bad-priority", "bad-source", "bad-pgn-wide"):
             for names in ([badname], ["single", badname, "multi"], [badname, badname]):
                 plan = SendPlan(drain_mask="alt")
                 r, order = session(kind, names, 1, plan, [], M)
